@@ -27,15 +27,17 @@ impl Clone for Value {
 impl Str {
     #[verifier::external_body]
     pub fn to_owned(&self) -> (r: Str) ensures r == *self { unimplemented!() }
-    #[verifier::external_body]
-    pub fn into_value(self) -> (r: Value) { unimplemented!() }
 }
 impl KeyString {
     #[verifier::external_body]
     pub fn clone(&self) -> (r: KeyString) ensures r == *self { unimplemented!() }
-    #[verifier::external_body]
-    pub fn into_value(self) -> (r: Value) { unimplemented!() }
 }
+// `x.into()` where a `Value` is expected: the From<String>/From<KeyString>/From<usize>/From<bool>
+// conversions are opaque (their results are never inspected by a contract)
+pub trait IntoValue { fn into_value(self) -> Value; }
+impl IntoValue for Str { #[verifier::external_body] fn into_value(self) -> Value { unimplemented!() } }
+impl IntoValue for KeyString { #[verifier::external_body] fn into_value(self) -> Value { unimplemented!() } }
+impl IntoValue for usize { #[verifier::external_body] fn into_value(self) -> Value { unimplemented!() } }
 
 pub enum ExpressionError {
     Abort { span: Span, message: Option<Msg> },
